@@ -31,6 +31,10 @@ class Facts:
             for it in d["items"]:
                 it["crate"] = cname
                 self.items.append(it)
+        self.renamed = {}
+        self._index()
+
+    def _index(self):
         self.mir_by_path = {(b["crate"], b["path"]): b for b in self.mir}
         self.hir_by_path = {(b["crate"], b["path"]): b for b in self.hir}
         # closures grouped under their root fn
@@ -38,6 +42,47 @@ class Facts:
         for b in self.mir:
             if b["dk"] == "Closure":
                 self.closures_of.setdefault((b["crate"], b["parent"]), []).append(b)
+
+    def rename_paths(self, mapping):
+        """mapping: {local function path: new path}. Rewrites every occurrence (bodies, closures below them, resolved callees,
+        path resolutions, method names) in place, so the rules see the reference names whatever the functions are called."""
+        if not mapping:
+            return
+        olds = sorted(mapping, key=len, reverse=True)
+
+        def fix(v):
+            for o in olds:
+                if v == o:
+                    return mapping[o]
+                if v.startswith(o + "::"):
+                    return mapping[o] + v[len(o):]
+                # crate-qualified form
+                i = v.find("::" + o)
+                if i > 0 and v[:i] in (VISITOR_CRATE, PLUGIN_CRATE) and (len(v) == i + 2 + len(o) or v[i + 2 + len(o):].startswith("::")):
+                    return v[:i + 2] + mapping[o] + v[i + 2 + len(o):]
+            return v
+
+        def rec(x):
+            if isinstance(x, dict):
+                for k, v in x.items():
+                    if isinstance(v, str):
+                        if k in ("path", "callee", "callee_full", "resolved", "parent", "def", "fn"):
+                            nv = fix(v)
+                            if nv != v:
+                                x[k] = nv
+                                if k == "callee" and "method" in x:
+                                    x["method"] = nv.split("::")[-1]
+                    else:
+                        rec(v)
+            elif isinstance(x, list):
+                for y in x:
+                    rec(y)
+        for b in self.hir + self.mir:
+            rec(b)
+            if b.get("dk") != "Closure" and "name" in b:
+                b["name"] = b["path"].split("::")[-1]
+        self.renamed.update(mapping)
+        self._index()
 
     # ---- body classification -------------------------------------------------
     def user_hir(self, crate=VISITOR_CRATE):
@@ -74,6 +119,47 @@ class Facts:
             if it["crate"] == crate and it.get("kind") == "struct" and it["path"].split("::")[-1].split("<")[0] == path_suffix:
                 return it["variants"][0]["fields"]
         return None
+
+
+def rename_locals(facts, hir_body, idmap, namemap):
+    """present renamed local bindings of one function under their reference names (HIR: by binding id; MIR family, captures: by name)"""
+    for root in list(hir_body.get("params", [])) + [hir_body["body"]]:
+        for n in walk(root):
+            k = n.get("k")
+            if k == "PBind" and n.get("id") in idmap:
+                n["name"] = idmap[n["id"]]
+            elif k == "Path" and n["res"].get("r") == "local" and n["res"].get("id") in idmap:
+                n["res"]["name"] = idmap[n["res"]["id"]]
+            elif k == "Closure":
+                for c in n.get("captures", []):
+                    c["place"] = _sub_names(c["place"], namemap)
+    m = facts.mir_by_path.get((hir_body["crate"], hir_body["path"]))
+    if m is None:
+        return
+
+    def rec(x):
+        if isinstance(x, dict):
+            for k, v in x.items():
+                if isinstance(v, str):
+                    if k in ("s", "name", "upvar", "place"):
+                        x[k] = _sub_names(v, namemap)
+                elif isinstance(v, list) and k == "p":
+                    x[k] = [_sub_names(y, namemap) if isinstance(y, str) else y for y in v]
+                else:
+                    rec(v)
+        elif isinstance(x, list):
+            for y in x:
+                rec(y)
+    for b in facts.mir_family(m):
+        for key in ("locals", "debug", "upvars", "blocks"):
+            rec(b.get(key))
+
+
+def _sub_names(s, namemap):
+    for old, new in namemap.items():
+        if old in s:
+            s = re.sub(r"(?<![\w.])" + re.escape(old) + r"\b", new, s)
+    return s
 
 
 # ---- HIR walking ---------------------------------------------------------------
